@@ -131,6 +131,27 @@ Section Impl.
                  (fun v => v <| v_exit_epoch := q |>
                              <| v_withdrawable_epoch := add64 q (MIN_VALIDATOR_WITHDRAWABILITY_DELAY c) |>) |>).
 
+
+  (* ================= phase0/voluntary_exit.go, deneb/voluntary_exit.go ProcessVoluntaryExit ================= *)
+  Definition process_voluntary_exit_impl (epc : BlockEpc) (st : BeaconState) (sve : value) : outcome BeaconState :=
+    let ve := vfield sve 0 in
+    let ve_epoch := vuint (vfield ve 0) in
+    let vi := vuint (vfield ve 1) in
+    let ce := be_current_epoch epc in
+    _ <~ check (vi <? N.of_nat (length (validators st))) ;;                   (* IsValidIndex *)
+    v <~ of_opt (nthN (validators st) vi) ;;
+    _ <~ check (is_active_validator v ce) ;;
+    _ <~ check (v_exit_epoch v =? FAR_FUTURE_EPOCH) ;;
+    _ <~ check (negb (ce <? ve_epoch)) ;;
+    (* registeredActivationEpoch + SHARD_COMMITTEE_PERIOD in uint64: cannot wrap once IsActive has passed *)
+    _ <~ check (negb (ce <? add64 (v_activation_epoch v) (SHARD_COMMITTEE_PERIOD c))) ;;
+    pk <~ of_opt (be_pubkey_of epc vi) ;;                                     (* ValidatorPubkeyCache.Pubkey *)
+    let domain := if fork_ge f Deneb
+                  then compute_domain E DOMAIN_VOLUNTARY_EXIT (CAPELLA_FORK_VERSION c) (genesis_validators_root st)
+                  else get_domain E st DOMAIN_VOLUNTARY_EXIT ve_epoch in
+    _ <~ check (bls_verify E pk (compute_signing_root E (htr VoluntaryExitT ve) domain) (vbytes (vfield sve 1))) ;;
+    initiate_validator_exit_impl epc st vi.
+
   (* ================= phase0/slashings.go SlashValidator ================= *)
   Definition calc_proposer_share (whistleblower_reward : N) : outcome N :=   (* ForkSettings.CalcProposerShare *)
     match f with
